@@ -93,7 +93,7 @@ func init() {
 	probeNames["C05"] = []string{"event_ge3_pages", "event_multi_page", "event_fills_page_exactly", "header_does_not_fit_at_page_end", "event_1_byte", "event_skipped", "pq_reopen", "io_fault_in_producer_call"}
 	register(&PropDef{
 		ID: "C05", Level: "exploration", QuickSec: 50, ThoroSec: 900,
-		Rule: "each run = one seeded queue history (up to 400 operations: Write with arbitrary chunking incl. 1-byte chunks, Next, Flush, reader Begin/Next/Read(partial, exact, oversize buffers)/Done, ACK, queue+file reopen) with boundary-biased event sizes (1 byte; payload-4-d and payload-d for d in 0..6; k*payload-4-d; multi page) on page sizes 1024-4096 and write buffers from the minimum to 16 pages; in a fifth of the runs one write error or short write is armed for single Flush/Next calls (the call may fail, the events stay buffered and are delivered after a later flush). Oracle: the i-th event delivered by the reader is the i-th appended event (exact size from Next, byte-identical concatenated Reads, Read returns 0 exactly at the end), nothing is delivered that was not completed, Next reports empty only if nothing certainly-flushed is undelivered; at the end Flush + drain must deliver every appended event. Non-trivial = run with at least one multi-page event and one event read in several pieces; distinct = op list + config + schedule hash.",
+		Rule: "each run = one seeded queue history (up to 400 operations: Write with arbitrary chunking incl. 1-byte chunks, Next, Flush, reader Begin/Next/Read(partial, exact, oversize buffers)/Done, ACK, queue+file reopen) with boundary-biased event sizes (1 byte; payload-4-d and payload-d for d in 0..6; k*payload-4-d; multi page) on page sizes 1024-4096 and write buffers from the minimum to 16 pages; half of the queue configurations set a statistics Observer, 1 in 16 starts the new queue at an event id just below 2^63, 2^64 or 2^32; in a fifth of the runs one write error or short write is armed for single Flush/Next calls (the call may fail, the events stay buffered and are delivered after a later flush). Oracle: the i-th event delivered by the reader is the i-th appended event (exact size from Next, byte-identical concatenated Reads, Read returns 0 exactly at the end), nothing is delivered that was not completed, Next reports empty only if nothing certainly-flushed is undelivered; at the end Flush + drain must deliver every appended event. Non-trivial = run with at least one multi-page event and one event read in several pieces; distinct = op list + config + schedule hash.",
 		Real: defaultReal, Stub: defaultStub, Assume: defaultAssume,
 		FaultKinds: []string{"write error inside Flush/Next (one call, a fifth of the runs)", "short write inside Flush/Next"},
 		Body: func(e *Env) {
